@@ -14,13 +14,16 @@ CLAIMED = {
             'dimensions x every per-axis selector combination (all ints in [-n,n), one spelling of every '
             'distinct slice result plus odd spellings, index lists incl. empty/repeats/negatives, both '
             'keyword orders) is executed on the real sliceDimensions and compared bit-for-bit with an '
-            'independent per-axis numpy.take / pointwise reference. Exhaustive within the stated bounds.',
+            'independent per-axis numpy.take / pointwise reference; zipped index lists also as numpy arrays (one '
+            'object shared by two dimensions) which must be unchanged afterwards; the string form slice_dim and '
+            'IOAPI files included. Exhaustive within the stated bounds.',
             'numpy is trusted; dimension lengths <=3; domain predicate of DESIGN 3.1 decides which '
             'raises are acceptable', 'DESIGN.md section 4 C02'),
     'C03': ('A', 'model_checking',
             'bounded-exhaustive enumeration of (dimension subset x function assignment) on the real code vs numpy/numpy.ma lane-wise reference',
             'Every file of the small universe x every non-empty dimension subset x every assignment of 7 named '
-            'reducers and 6 length-changing 1-D functions (plus the documented dict form) to those dimensions x '
+            'reducers and 10 1-D functions (length-changing, length-preserving, scalar-returning; plus the documented '
+            'dict form with and without keyword options, incl. a required option that decides the output length) to those dimensions x '
             'both keyword orders is executed on the real applyAlongDimensions and compared with an independent '
             'one-primitive-per-axis numpy / numpy.ma reference (any application order accepted, loss of value on '
             'store rejected); commuting reducers are additionally run in both orders and compared.',
@@ -34,12 +37,13 @@ CLAIMED = {
             'dimension lengths and unlimited flags, attributes, variable order); slicing the stacked file at each '
             'piece extent must reproduce the piece; ordered pairs/triples (thorough: quadruples) of distinct files must equal '
             'numpy.concatenate in argument order; IOAPI files (gridded/boundary/masked/disk, 3-6 start instants, 2-5 steps) '
-            'split along TSTEP into every composition and stacked again must reproduce data, TFLAG and SDATE/STIME/TSTEP.',
+            'split along TSTEP into every composition and stacked again must reproduce data, TFLAG and SDATE/STIME/TSTEP; '
+            'the list object handed to each stacking entry point must be unchanged afterwards.',
             'numpy.concatenate trusted; dimension order not compared; the disk form compares dims/data/masks only',
             'DESIGN.md section 4 C04'),
     'C01': ('B', 'model_checking',
             'explicit-state breadth-first search over operation sequences on real file objects (canonical-hash deduplication, history replay)',
-            'BFS from 13 seed files (small universe incl. masked/char/scalar/coordinate/unlimited, IOAPI gridded/boundary/'
+            'BFS from 18 seed files (CF file with bounds variables, small universe incl. masked/char/scalar/coordinate/unlimited, IOAPI gridded/boundary/'
             'disk-backed, netCDF-backed, CAMx and ICARTT reader outputs) under a state-derived menu of ~30 operation '
             'instances covering every public transformation, to depth 2 (quick) / 3 (thorough). Every state reached '
             'is checked for well-formedness (dimension names exist, shapes match, unlimited flags survive, IOAPI '
@@ -60,10 +64,12 @@ CLAIMED = {
             'to the variable dtype); IOAPI wall-clock stamps excluded', 'DESIGN.md section 4 C05'),
     'C10': ('B', 'model_checking',
             'explicit-state breadth-first search over IOAPI operation sequences with the coherence invariant evaluated in every state',
-            'BFS from 7 IOAPI seeds (gridded, 1x1x1x1, boundary, masked, disk-backed, GRIDDESC with and without CF '
-            'variables) under a ~45-instance menu (copy, slice int/slice/list on every standard dimension, subset, '
-            'subset-exclude, renameVariable, eval, apply mean/max/diff on every standard dimension, mask, stack in '
-            'time, interpSigma linear/conserve, +) to depth 2 (quick) / 4 (thorough); every reached state must '
+            'BFS from 10 IOAPI seeds (gridded, 1x1x1x1, boundary, masked, disk-backed, 16-character name, a disk file '
+            'whose VAR-LIST lost its trailing blanks (set-up state), GRIDDESC with and without CF variables, dates '
+            'beyond 2038) under a ~60-instance menu (copy with and without data, slice int/slice/list on every '
+            'standard dimension, the short names f.slice/f.subset/f.apply, subset, subset-exclude, renameVariable(s), '
+            'a variable added by hand (set-up), eval, apply mean/max/diff/reverse/demean on every standard dimension, '
+            'mask, stack in time, interpSigma linear/conserve, +) to depth 2 (quick) / 4 (thorough); every reached state must '
             'satisfy all coherence clauses of the statement and every in-domain instance must complete.',
             'clauses are exactly the statement; operations leaving the IOAPI data model are out of domain and not '
             'explored (DESIGN section 7)', 'DESIGN.md section 4 C10'),
@@ -113,7 +119,8 @@ CLAIMED = {
     'C07': ('A', 'model_checking',
             'bounded-exhaustive enumeration of (file kind, flavour, compression, writer, process history) saved by the real writer and re-read through libnetcdf',
             'Four file kinds (every representable dtype incl. char and scalar; masked variables whose fill comes from '
-            'fill_value / missing_value / _FillValue with fills -999, -5, 1e20, 0 and a fully masked variable; every '
+            'fill_value / missing_value / _FillValue with fills -999, -5, 1e20, 0 and a fully masked variable, a masked '
+            'variable named after its dimension, nan/inf in valid cells; every '
             'attribute value type; dimension/variable order with a mid-position and a second unlimited dimension) x '
             '4 netCDF flavours x complevel 0/1 x 3 writer entry points x with/without a compressed save earlier in the '
             'process, plus a generated grid: every representable dtype x {unmasked, masked with pattern one/all/none/'
